@@ -334,6 +334,7 @@ class Host(utils.EventEmitter):
         await self.command_semaphore.acquire()
 
         # Flush current host state, then release command semaphore
+        self._on_connections_lost()
         self.emit('flush')
         self.command_semaphore.release()
 
@@ -1008,6 +1009,7 @@ class Host(utils.EventEmitter):
         if self.pending_response:
             self.pending_response.set_exception(TransportLostError('transport lost'))
 
+        self._on_connections_lost()
         self.emit('flush')
 
     def on_hci_packet(self, packet: hci.HCI_Packet) -> None:
@@ -1320,6 +1322,34 @@ class Host(utils.EventEmitter):
                 event.status,
             )
 
+    def _on_disconnection(self, handle: int, reason: int) -> None:
+        # Notify the listeners
+        self.emit('disconnection', handle, reason)
+
+        # Remove the handle reference
+        self.link_ts_flags.pop(handle, None)
+        _ = (
+            self.connections.pop(handle, 0)
+            or self.cis_links.pop(handle, 0)
+            or self.sco_links.pop(handle, 0)
+        )
+
+        # Flush the data queues
+        if self.acl_packet_queue:
+            self.acl_packet_queue.flush(handle)
+        if self.le_acl_packet_queue:
+            self.le_acl_packet_queue.flush(handle)
+        if self.iso_packet_queue:
+            self.iso_packet_queue.flush(handle)
+
+    def _on_connections_lost(self) -> None:
+        # The controller is gone or about to be reset: no connection survives that,
+        # and no Disconnection Complete event will be received for them.
+        for handle in (
+            list(self.cis_links) + list(self.sco_links) + list(self.connections)
+        ):
+            self._on_disconnection(handle, 0)
+
     def on_hci_disconnection_complete_event(
         self, event: hci.HCI_Disconnection_Complete_Event
     ):
@@ -1337,25 +1367,7 @@ class Host(utils.EventEmitter):
 
         if event.status == hci.HCI_SUCCESS:
             logger.debug(f'### DISCONNECTION: {connection}, reason={event.reason}')
-
-            # Notify the listeners
-            self.emit('disconnection', handle, event.reason)
-
-            # Remove the handle reference
-            self.link_ts_flags.pop(handle, None)
-            _ = (
-                self.connections.pop(handle, 0)
-                or self.cis_links.pop(handle, 0)
-                or self.sco_links.pop(handle, 0)
-            )
-
-            # Flush the data queues
-            if self.acl_packet_queue:
-                self.acl_packet_queue.flush(handle)
-            if self.le_acl_packet_queue:
-                self.le_acl_packet_queue.flush(handle)
-            if self.iso_packet_queue:
-                self.iso_packet_queue.flush(handle)
+            self._on_disconnection(handle, event.reason)
         else:
             logger.debug(f'### DISCONNECTION FAILED: {event.status}')
 
